@@ -15,6 +15,7 @@ import XzVerif.Model.HashTable
 import XzVerif.Model.BinTree
 import XzVerif.Model.XzW
 import XzVerif.Model.Writer2F
+import XzVerif.Model.LazyDec
 /-
   driver — line protocol around the executable definitions of Spec and Model.
   One request per line on stdin, one reply line on stdout.  Core-only, so it links.
@@ -414,6 +415,19 @@ def handle (line : String) : String :=
       " ".intercalate (rs.map (fun (r, sz) => s!"{r.n}:{ferrName r.err}:{if r.panic then 1 else 0}@{sz}")) ++ " | " ++ hex out ++
         s!" | calls={ncalls}"
     | _, _, _, _, _, _ => "bad-op"
+  -- lzlazy <cfgCap> <hex(stream)> <len>... → the lazy classic reader (ring level): open:<err> | per call n:status … | delivered bytes
+  | "lzlazy" :: cc :: h :: lens => match cc.toNat?, lens.mapM String.toNat? with
+    | some cc, some lens =>
+      let en : LazyDec.Err → String := fun e => match e with
+        | .unexpectedEOF => "UnexpectedEOF" | .size => "size" | .dataAfterEOS => "dataAfterEOS" | .noSpace => "noSpace"
+        | .distRange => "distRange" | .lenRange => "lenRange" | .panic => "panic" | .other w => "other(" ++ w.replace " " "_" ++ ")"
+      match LazyDec.newReader cc (unhex h) with
+      | .error e => "open:" ++ en e
+      | .ok l =>
+        let rs := LazyDec.readSeq l lens
+        " ".intercalate (rs.map (fun (o, st) => s!"{o.size}:" ++ (match st with | .ok => "ok" | .eof => "EOF" | .err e => en e))) ++
+          " | " ++ hex (LazyDec.delivered rs)
+    | _, _ => "bad-op"
   -- btcands <dictCap> <hex(history)> <hex(look ≤ 273)> → special:a:b of the Lean binary tree model
   | ["btcands", dc, h, l] => match dc.toNat? with
     | some dc =>
